@@ -4,6 +4,7 @@ the outcome class, the handler calls and a canonical snapshot of EVERY notifier 
 object (instance traits incl. trait_added, the object's own list, the TraitList/Dict/Set notifiers):
 handler identity, target, dispatcher, reference count, maintainer kind and graph."""
 import gc
+import inspect
 import json
 import logging
 import os
@@ -64,7 +65,13 @@ TRAITS = {"N": ["value", "value2", "f", "g", "kids", "m", "s", "w"], "P": ["valu
 
 
 def disp1(handler, event):
-    handler(event)
+    # a custom dispatcher; a coroutine-function handler (`async def`) is run to completion synchronously
+    r = handler(event)
+    if inspect.iscoroutine(r):
+        try:
+            r.send(None)
+        except StopIteration:
+            pass
 
 
 from traits.trait_notifiers import ui_dispatch  # noqa: E402
@@ -78,6 +85,16 @@ class Owner:
         self.calls = calls
 
     def meth(self, event):
+        self.calls.append(self.i)
+
+
+class AOwner:
+    """the handler is a bound coroutine function (dispatch_same supports them; here run by disp1)"""
+    def __init__(self, i, calls):
+        self.i = i
+        self.calls = calls
+
+    async def meth(self, event):
         self.calls.append(self.i)
 
 
@@ -136,8 +153,8 @@ def run_case(case):
 
     owners, handlers = [], []
     for i, hk in enumerate(case["handlers"]):
-        if hk == "meth":
-            ow = Owner(i, calls)
+        if hk in ("meth", "ameth"):
+            ow = (Owner if hk == "meth" else AOwner)(i, calls)
             owners.append(ow)
             handlers.append(ow.meth)
         else:
